@@ -22,6 +22,11 @@ def parseKind : String → Option Kind
   | "time" => some .time
   | "space" => some .space
   | "spacetime" => some .spaceTime
+  -- the same node kinds over `u64` (the model's values are integers either way; those cases hold no negative value)
+  | "udata" => some .data
+  | "utime" => some .time
+  | "uspace" => some .space
+  | "uspacetime" => some .spaceTime
   | _ => none
 
 def ints (s : String) : List Int := (s.splitOn ",").filterMap String.toInt?
